@@ -295,7 +295,7 @@ static void w_canon(void)
             }
             cls[a] = k; KB_U((unsigned)k);
         }
-        KB_C('+'); KB_U(A[a].off); KB_C('#'); KB_U(A[a].len);
+        KB_C('+'); KB_U(A[a].off); KB_C('#'); KB_U(A[a].len); KB_C('M'); KB_U(O[a].off); KB_C('#'); KB_U(O[a].len); KB_C(O[a].buf >= 0 ? 'b' : '-');
         if (p != NULL && A[a].len > 0 && A[a].len == O[a].len) {
             /* what the descriptor says (element size, base): distance of the first and last visible element from data() */
             static void * volatile e0, * volatile e1, * volatile d; int ab;
